@@ -9372,9 +9372,16 @@ class SVG(Group):
                     if SVG_ATTR_ID in attributes and root is not None and use == 1:
                         root.objects[attributes[SVG_ATTR_ID]] = s
                 elif SVG_TAG_PATTERN == tag:
-                    s = Pattern(values)
+                    try:
+                        s = Pattern(values)
+                        s.render(ppi=ppi, width=width, height=height)
+                    except ValueError as e:
+                        if on_error == "raise":
+                            raise e
+                        if on_error == "stop":
+                            return root
+                        s = Pattern()
                     context = s  # Non-rendered
-                    s.render(ppi=ppi, width=width, height=height)
                 elif tag in (
                     SVG_TAG_PATH,
                     SVG_TAG_CIRCLE,
@@ -9492,11 +9499,18 @@ class SVG(Group):
                     if SVG_ATTR_ID in attributes and root is not None and use == 0:
                         root.objects[attributes[SVG_ATTR_ID]] = s
                 if tag in (SVG_TAG_TEXT, SVG_TAG_TSPAN):
-                    s = Text(values, text=elem.text)
-                    s.render(ppi=ppi, width=width, height=height)
-                    if reify:
-                        s.reify()
-                    if context is not None:
+                    try:
+                        s = Text(values, text=elem.text)
+                        s.render(ppi=ppi, width=width, height=height)
+                        if reify:
+                            s.reify()
+                    except ValueError as e:
+                        if on_error == "raise":
+                            raise e
+                        if on_error == "stop":
+                            return root
+                        s = None
+                    if s is not None and context is not None:
                         context.append(s)
                 elif SVG_TAG_DESC == tag:
                     s = Desc(values, desc=elem.text)
